@@ -1,70 +1,20 @@
 /-
   The unsorted OTLP -> STEF converter writes, for every data point of a clean batch, a record that
-  reads back as that data point (Stef/Otlp/Metrics.lean).
+  reads back as that data point (Stef/Otlp/Metrics.lean). The only state invariant that matters is
+  that the (possibly stale) aggregation temporality of the re-used Metric stays a valid one.
 -/
 import Stef.Proofs.OtlpMetrics
 
 namespace Stef.Otlp
 
-/-! ### "no -0.0" invariants of the writer's state -/
-
-def optNnzO : Option Nat → Bool
-  | none => true
-  | some v => nnzF v
-
-def SPValue.nnz : SPValue → Bool
-  | .dbl v => nnzF v
-  | .hist h => optNnzO h.sum && optNnzO h.min && optNnzO h.max
-  | .exp e => optNnzO e.sum && optNnzO e.min && optNnzO e.max && nnzF e.zeroThreshold
-  | .summary s => nnzF s.sum && s.quantiles.all (fun q => nnzF q.1 && nnzF q.2)
-  | _ => true
-
-def ExValue.nnz : ExValue → Bool
-  | .dbl v => nnzF v
-  | _ => true
-
-def SExemplar.nnz (e : SExemplar) : Bool := e.value.nnz && e.attrs.nnz
-def SPoint.nnz (p : SPoint) : Bool := p.value.nnz && p.exStore.all SExemplar.nnz
-def SRecord.nnz (r : SRecord) : Bool :=
-  r.metric.mdata.nnz && r.metric.bounds.all boundOk && decide (r.metric.temp ≤ 2) && r.resource.attrs.nnz &&
-  r.scope.attrs.nnz && r.attrs.nnz && r.point.nnz
-def WState.inv (st : WState) : Bool := st.cur.nnz && st.tmp.nnz
-
-theorem nnz_empty : ({} : SAttrs).nnz = true := by simp [SAttrs.nnz, SKVs.nnz]
+/-- invariant of the writer's state: the temporality held by the re-used record is a valid one
+    (a gauge or summary does not rewrite it, and the reader converts it whatever the type) -/
+def WState.inv (st : WState) : Prop := st.cur.metric.temp ≤ 2
 
 /-! ### exemplars -/
 
 /-- an exemplar as it comes back: filtered attributes in key order -/
 def sortExAttrs (e : Exemplar) : Exemplar := { e with attrs := e.attrs.sortByKey }
-
-theorem exEnsure_nnz : ∀ (n : Nat) (st : List SExemplar), st.all SExemplar.nnz = true →
-    (exEnsure n st).all SExemplar.nnz = true
-  | 0, st, h => by simpa [exEnsure] using h
-  | n + 1, [], _ => by
-    have := exEnsure_nnz n [] (by simp)
-    simp [exEnsure, SExemplar.nnz, ExValue.nnz, nnz_empty, this]
-  | n + 1, e :: t, h => by
-    simp only [List.all_cons, Bool.and_eq_true] at h
-    simp [exEnsure, h.1, exEnsure_nnz n t h.2]
-
-theorem exResetRange_nnz : ∀ (st : List SExemplar) (lo c : Nat), st.all SExemplar.nnz = true →
-    (exResetRange lo c st).all SExemplar.nnz = true
-  | [], lo, c, _ => by cases lo <;> cases c <;> simp [exResetRange]
-  | e :: t, 0, 0, h => by simpa [exResetRange] using h
-  | e :: t, 0, c + 1, h => by
-    simp only [List.all_cons, Bool.and_eq_true] at h
-    have h1 : e.reset.nnz = true := by
-      have := h.1
-      simp only [SExemplar.nnz, Bool.and_eq_true] at this
-      simpa [SExemplar.nnz, SExemplar.reset, SAttrs.nnz, ExValue.nnz] using this.2
-    simp [exResetRange, h1, exResetRange_nnz t 0 c h.2]
-  | e :: t, lo + 1, c, h => by
-    simp only [List.all_cons, Bool.and_eq_true] at h
-    simp [exResetRange, h.1, exResetRange_nnz t lo c h.2]
-
-theorem exEnsureLen_nnz (st : List SExemplar) (len n : Nat) (h : st.all SExemplar.nnz = true) :
-    (exEnsureLen st len n).all SExemplar.nnz = true :=
-  exResetRange_nnz _ _ _ (exEnsure_nnz n st h)
 
 /-- value an exemplar ends up with in the (re-used) destination -/
 def exValueInto (e : Exemplar) (d : SExemplar) : ExValue :=
@@ -86,20 +36,12 @@ theorem convExemplar_eq (e : Exemplar) (tmp : SAttrs) (d : SExemplar) (hvt : e.v
   · simp only [convExemplar, exInto, exValueInto, h0]
     rfl
 
-theorem exValueInto_spec (e : Exemplar) (d : SExemplar) (hvt : e.vt ≤ 2) (hv : (e.vt != 2 || nnzF e.v) = true)
-    (hd : d.value.nnz = true) :
-    (exValueInto e d).nnz = true ∧ exValueInto e d = exValueOf e := by
+theorem exValueInto_spec (e : Exemplar) (d : SExemplar) (hvt : e.vt ≤ 2) : exValueInto e d = exValueOf e := by
   have hvt' : e.vt = 0 ∨ e.vt = 1 ∨ e.vt = 2 := by omega
   rcases hvt' with h0 | h0 | h0
-  · simp [exValueInto, exValueOf, h0, ExValue.nnz]
-  · simp [exValueInto, exValueOf, h0, ExValue.nnz]
-  · have hv' : Storable e.v := nnzF_iff.mp (by simpa [h0] using hv)
-    cases hdv : d.value with
-    | dbl o =>
-      have ho : Storable o := nnzF_iff.mp (by simpa [hdv, ExValue.nnz] using hd)
-      simp [exValueInto, exValueOf, h0, hdv, ExValue.nnz, setF_eq ho hv', nnzF_iff.mpr hv']
-    | none => simp [exValueInto, exValueOf, h0, hdv, ExValue.nnz, nnzF_iff.mpr hv']
-    | int i => simp [exValueInto, exValueOf, h0, hdv, ExValue.nnz, nnzF_iff.mpr hv']
+  · simp [exValueInto, exValueOf, h0]
+  · simp [exValueInto, exValueOf, h0]
+  · cases hdv : d.value <;> simp [exValueInto, exValueOf, h0, hdv, setF_eq]
 
 /-- BaseSTEFToOTLP.ConvertExemplar when the ids have the right size -/
 def exemplarBack (d : SExemplar) : Exemplar :=
@@ -115,29 +57,18 @@ theorem dExemplar_back (d : SExemplar) :
     dExemplar (exemplarBack d) = { ts := d.ts, value := d.value, traceID := d.traceID, spanID := d.spanID, attrs := d.attrs.toOtlp } := by
   cases hv : d.value <;> simp [dExemplar, exemplarBack, exValueOf, hv]
 
-theorem exInto_spec (e : Exemplar) (tmp : SAttrs) (d : SExemplar) (hc : e.clean = true) (ht : tmp.nnz = true)
-    (hd : d.nnz = true) :
-    (SAttrs.mapSorted e.attrs tmp).nnz = true ∧ (exInto e tmp d).nnz = true ∧
-      exemplarToOtlp (exInto e tmp d) = .ok (exemplarBack (exInto e tmp d)) ∧
-      dExemplar (exemplarBack (exInto e tmp d)) = dExemplar (sortExAttrs e) := by
+theorem exInto_spec (e : Exemplar) (tmp : SAttrs) (d : SExemplar) (hc : e.clean = true) :
+    exemplarToOtlp (exInto e tmp d) = .ok (exemplarBack (exInto e tmp d)) ∧
+    dExemplar (exemplarBack (exInto e tmp d)) = dExemplar (sortExAttrs e) := by
   simp only [Exemplar.clean, Bool.and_eq_true, decide_eq_true_eq] at hc
-  obtain ⟨⟨⟨hvt, hv⟩, hid⟩, ha⟩ := hc
-  simp only [SExemplar.nnz, Bool.and_eq_true] at hd
-  have hsn := clean_small_nnz' ha
-  have h1 := mapSorted_spec e.attrs tmp hsn.1 hsn.2 ht
+  obtain ⟨⟨hvt, hid⟩, ha⟩ := hc
   have hsc := KVs.sortByKey_clean e.attrs ha
-  have h2 := copyFrom_spec (SAttrs.mapSorted e.attrs tmp).visible d.attrs (by rw [h1.1]; exact (clean_small_nnz' hsc).2) hd.2
   have hto : (SAttrs.copyFrom (SAttrs.mapSorted e.attrs tmp).visible d.attrs).toOtlp = e.attrs.sortByKey :=
-    toOtlp_of_visible _ _ (by rw [h2.1, h1.1]) hsc
+    toOtlp_of_visible _ _ (by rw [copyFrom_spec, mapSorted_spec]) hsc
   simp only [validIds, Bool.and_eq_true, beq_iff_eq] at hid
-  have hx := exValueInto_spec e d hvt hv hd.1
-  refine ⟨h1.2, by simp [SExemplar.nnz, exInto, hx.1, h2.2], exemplarToOtlp_ok _ hid.1 hid.2, ?_⟩
+  refine ⟨exemplarToOtlp_ok _ hid.1 hid.2, ?_⟩
   rw [dExemplar_back]
-  simp [exInto, dExemplar, sortExAttrs, hto, hx.2, exValueOf]
-
-end Stef.Otlp
-
-namespace Stef.Otlp
+  simp [exInto, dExemplar, sortExAttrs, hto, exValueInto_spec e d hvt, exValueOf]
 
 /-- what ConvertExemplars leaves in the temp attributes and in the store -/
 def exsInto : List Exemplar → SAttrs → List SExemplar → SAttrs × List SExemplar
@@ -158,24 +89,23 @@ theorem convExemplarsLoop_eq : ∀ (es : List Exemplar) (tmp : SAttrs) (st : Lis
       convExemplarsLoop_eq es _ [] (fun x hx => h x (by simp [hx])), exsInto]
 
 theorem exsInto_spec : ∀ (es : List Exemplar) (tmp : SAttrs) (st : List SExemplar),
-    es.all Exemplar.clean = true → tmp.nnz = true → st.all SExemplar.nnz = true →
-    (exsInto es tmp st).1.nnz = true ∧ (exsInto es tmp st).2.all SExemplar.nnz = true ∧
+    es.all Exemplar.clean = true →
     exemplarsToOtlp ((exsInto es tmp st).2.take es.length)
       = .ok (((exsInto es tmp st).2.take es.length).map exemplarBack) ∧
     (((exsInto es tmp st).2.take es.length).map exemplarBack).map dExemplar = es.map (fun e => dExemplar (sortExAttrs e))
-  | [], tmp, st, _, ht, hs => by simp [exsInto, ht, hs, exemplarsToOtlp]
-  | e :: es, tmp, d :: ds, hc, ht, hs => by
-    simp only [List.all_cons, Bool.and_eq_true] at hc hs
-    have h1 := exInto_spec e tmp d hc.1 ht hs.1
-    have h2 := exsInto_spec es (SAttrs.mapSorted e.attrs tmp) ds hc.2 h1.1 hs.2
-    simp only [exsInto, List.length_cons, List.take_succ_cons, List.all_cons, List.map_cons, exemplarsToOtlp,
-      h1.2.1, h1.2.2.1, h1.2.2.2, h2.1, h2.2.1, h2.2.2.1, h2.2.2.2, Bool.and_self, and_self]
-  | e :: es, tmp, [], hc, ht, _ => by
+  | [], tmp, st, _ => by simp [exsInto, exemplarsToOtlp]
+  | e :: es, tmp, d :: ds, hc => by
     simp only [List.all_cons, Bool.and_eq_true] at hc
-    have h1 := exInto_spec e tmp {} hc.1 ht (by simp [SExemplar.nnz, ExValue.nnz, nnz_empty])
-    have h2 := exsInto_spec es (SAttrs.mapSorted e.attrs tmp) [] hc.2 h1.1 (by simp)
-    simp only [exsInto, List.length_cons, List.take_succ_cons, List.all_cons, List.map_cons, exemplarsToOtlp,
-      h1.2.1, h1.2.2.1, h1.2.2.2, h2.1, h2.2.1, h2.2.2.1, h2.2.2.2, Bool.and_self, and_self]
+    have h1 := exInto_spec e tmp d hc.1
+    have h2 := exsInto_spec es (SAttrs.mapSorted e.attrs tmp) ds hc.2
+    simp only [exsInto, List.length_cons, List.take_succ_cons, List.map_cons, exemplarsToOtlp,
+      h1.1, h1.2, h2.1, h2.2, and_self]
+  | e :: es, tmp, [], hc => by
+    simp only [List.all_cons, Bool.and_eq_true] at hc
+    have h1 := exInto_spec e tmp {} hc.1
+    have h2 := exsInto_spec es (SAttrs.mapSorted e.attrs tmp) [] hc.2
+    simp only [exsInto, List.length_cons, List.take_succ_cons, List.map_cons, exemplarsToOtlp,
+      h1.1, h1.2, h2.1, h2.2, and_self]
 
 /-- the point after ConvertExemplars -/
 def pointWithEx (es : List Exemplar) (tmp : SAttrs) (p : SPoint) : SPoint :=
@@ -196,23 +126,15 @@ theorem clean_vt {es : List Exemplar} (h : es.all Exemplar.clean = true) : ∀ e
   intro e he
   have := (List.all_eq_true.mp h) e he
   simp only [Exemplar.clean, Bool.and_eq_true, decide_eq_true_eq] at this
-  exact this.1.1.1
+  exact this.1.1
 
-theorem pointWithEx_spec (es : List Exemplar) (tmp : SAttrs) (p : SPoint) (hc : es.all Exemplar.clean = true)
-    (ht : tmp.nnz = true) (hp : p.nnz = true) :
-    (tmpAfterEx es tmp p).nnz = true ∧ (pointWithEx es tmp p).nnz = true ∧
-    (pointWithEx es tmp p).value = p.value ∧ (pointWithEx es tmp p).start = p.start ∧ (pointWithEx es tmp p).ts = p.ts ∧
+theorem pointWithEx_spec (es : List Exemplar) (tmp : SAttrs) (p : SPoint) (hc : es.all Exemplar.clean = true) :
     exemplarsToOtlp (pointWithEx es tmp p).exemplars = .ok ((pointWithEx es tmp p).exemplars.map exemplarBack) ∧
     ((pointWithEx es tmp p).exemplars.map exemplarBack).map dExemplar = es.map (fun e => dExemplar (sortExAttrs e)) := by
-  simp only [SPoint.nnz, Bool.and_eq_true] at hp
-  have h := exsInto_spec es tmp (exEnsureLen p.exStore p.exLen es.length) hc ht (exEnsureLen_nnz _ _ _ hp.2)
-  refine ⟨h.1, by simp [SPoint.nnz, pointWithEx, hp.1, h.2.1], rfl, rfl, rfl, ?_, ?_⟩
-  · simpa [SPoint.exemplars, pointWithEx] using h.2.2.1
-  · simpa [SPoint.exemplars, pointWithEx] using h.2.2.2
-
-end Stef.Otlp
-
-namespace Stef.Otlp
+  have h := exsInto_spec es tmp (exEnsureLen p.exStore p.exLen es.length) hc
+  refine ⟨?_, ?_⟩
+  · simpa [SPoint.exemplars, pointWithEx] using h.1
+  · simpa [SPoint.exemplars, pointWithEx] using h.2
 
 /-! ### what a reader makes of the written record -/
 
@@ -259,6 +181,26 @@ theorem flags_of_clean {p : Point} (hf : p.flags ≤ 1) : (flagged p = true → 
   · intro h; omega
   · intro h; simp at h; omega
 
+theorem exs_of_exOk {p : Point} (h : p.exOk = true) :
+    p.exemplars.all Exemplar.clean = true ∧ (flagged p = true → p.exemplars = []) := by
+  unfold Point.exOk at h
+  by_cases hf : flagged p = true
+  · simp only [hf, if_true, List.isEmpty_iff] at h
+    exact ⟨by simp [h], fun _ => h⟩
+  · simp only [hf] at h
+    exact ⟨by simpa using h, fun h' => absurd h' hf⟩
+
+theorem attrs_of_base {p : Point} (hc : p.base = true) : p.attrs.clean = true ∧ p.flags ≤ 1 := by
+  simp only [Point.base, Bool.and_eq_true, decide_eq_true_eq] at hc
+  exact hc
+
+theorem nrv_value (t : MType) (q : Point) (hq : q.flags = 1) : pointValue t q = .nrv := by
+  simp [pointValue, flagged, hq]
+
+/-- data points of the points of metric `m`, as they come back -/
+def backPoints (rid : ResId) (sid : ScopeId) (m : Metric) (ps : List Point) : List (Except String DataPoint) :=
+  ps.map fun p => .ok (dataPoint rid sid m p).sortExAttrs
+
 /-! ### number points -/
 
 def numValueInto (p : Point) (old : SPValue) : SPValue :=
@@ -279,22 +221,15 @@ theorem convNumber_eq (p : Point) (pt : SPoint) (h : p.vt ≤ 2) :
     · simp [h0]
     · simp only [h0]; rfl
 
-end Stef.Otlp
-
-namespace Stef.Otlp
-
-theorem exs_of_exOk {p : Point} (h : p.exOk = true) :
-    p.exemplars.all Exemplar.clean = true ∧ (flagged p = true → p.exemplars = []) := by
-  unfold Point.exOk at h
+theorem numValueInto_spec (p : Point) (old : SPValue) (hval : p.vt = 1 ∨ p.vt = 2) :
+    numValueInto p old = (if flagged p then .none else if p.vt = 1 then .int p.v else .dbl p.v) := by
+  simp only [numValueInto]
   by_cases hf : flagged p = true
-  · simp only [hf, if_true, List.isEmpty_iff] at h
-    exact ⟨by simp [h], fun _ => h⟩
-  · simp only [hf] at h
-    exact ⟨by simpa using h, fun h' => absurd h' hf⟩
-
-theorem attrs_of_base {p : Point} (hc : p.base = true) : p.attrs.clean = true ∧ p.flags ≤ 1 := by
-  simp only [Point.base, Bool.and_eq_true, decide_eq_true_eq] at hc
-  exact hc
+  · simp [hf]
+  · simp only [hf]
+    rcases hval with h1 | h2
+    · simp [h1]
+    · cases old <;> simp [h2, setF_eq]
 
 /-- the record written for a number point -/
 def numRecord (p : Point) (st : WState) : SRecord :=
@@ -311,190 +246,106 @@ theorem writeNumeric_cons (p : Point) (ps : List Point) (st : WState) (h1 : p.vt
   simp only [writeNumeric, convNumber_eq p st.cur.point h1, convExemplars_eq p.exemplars st.tmp _ h2, numRecord, numTmp]
 
 theorem numRecord_spec (p : Point) (st : WState) (rid : ResId) (sid : ScopeId)
-    (m : Metric) (ht : m.type = .gauge ∨ m.type = .sum) (hc : p.cleanNum = true) (hi : st.inv = true)
-    (hs : Shows st.cur rid sid m) :
-    pointOfRecord (numRecord p st) = .ok (dataPoint rid sid m p).sortExAttrs ∧
-    ({ st with cur := numRecord p st, tmp := numTmp p st } : WState).inv = true ∧ Shows (numRecord p st) rid sid m := by
+    (m : Metric) (ht : m.type = .gauge ∨ m.type = .sum) (hc : p.cleanNum = true) (hs : Shows st.cur rid sid m) :
+    pointOfRecord (numRecord p st) = .ok (dataPoint rid sid m p).sortExAttrs := by
   simp only [Point.cleanNum, Bool.and_eq_true, Bool.or_eq_true, beq_iff_eq] at hc
-  obtain ⟨⟨⟨hbase, hexok⟩, hval⟩, hvnn⟩ := hc
+  obtain ⟨⟨hbase, hexok⟩, hval⟩ := hc
   have hex := exs_of_exOk hexok
   have hat := attrs_of_base hbase
-  simp only [WState.inv, SRecord.nnz, Bool.and_eq_true, decide_eq_true_eq] at hi
-  obtain ⟨⟨⟨⟨⟨⟨⟨hmd, hbd⟩, htmp⟩, hra⟩, hsa⟩, haa⟩, hpt⟩, htn⟩ := hi
-  -- the number value
-  have hvn : p.vt = 2 → Storable p.v := by
-    intro h2
-    exact nnzF_iff.mp (by simpa [h2] using hvnn)
-  have hpt' := hpt
-  simp only [SPoint.nnz, Bool.and_eq_true] at hpt'
-  have hnv : (numValueInto p st.cur.point.value).nnz = true ∧
-      numValueInto p st.cur.point.value = (if flagged p then .none else if p.vt = 1 then .int p.v else .dbl p.v) := by
-    simp only [numValueInto]
-    by_cases hf : flagged p = true
-    · simp [hf, SPValue.nnz]
-    · simp only [hf]
-      rcases hval with h1 | h2
-      · simp [h1, SPValue.nnz]
-      · have hv2 := hvn h2
-        cases hov : st.cur.point.value with
-        | dbl o =>
-          have ho : Storable o := nnzF_iff.mp (by simpa [hov, SPValue.nnz] using hpt'.1)
-          simp [h2, SPValue.nnz, setF_eq ho hv2, nnzF_iff.mpr hv2]
-        | _ => simp [h2, SPValue.nnz, nnzF_iff.mpr hv2]
+  have hnv := numValueInto_spec p st.cur.point.value hval
   let pt1 : SPoint := { st.cur.point with ts := p.ts, start := p.start, value := numValueInto p st.cur.point.value }
-  have hpt1 : pt1.nnz = true := by simp [SPoint.nnz, pt1, hnv.1, hpt'.2]
-  have hx := pointWithEx_spec p.exemplars st.tmp pt1 hex.1 htn hpt1
-  have ha := attrs_roundtrip p.attrs st.cur.attrs hat.1 haa
+  have hx := pointWithEx_spec p.exemplars st.tmp pt1 hex.1
+  have ha := attrs_roundtrip p.attrs st.cur.attrs hat.1
   have hfl := flags_of_clean hat.2
-  refine ⟨?_, ?_, ?_⟩
-  · -- the data point read back
-    by_cases hf : flagged p = true
-    · have hv0 : (numRecord p st).point.value = .none := by
-        simp only [numRecord, pointWithEx_value, hnv.2, hf, if_true]
+  have hsh : Shows (numRecord p st) rid sid m := hs
+  by_cases hf : flagged p = true
+  · have hv0 : (numRecord p st).point.value = .none := by
+      simp only [numRecord, pointWithEx_value, hnv, hf, if_true]
+    have hq : pointToOtlp m.type (numRecord p st).metric (numRecord p st).attrs (numRecord p st).point
+        = .ok { attrs := (numRecord p st).attrs.toOtlp, start := (numRecord p st).point.start,
+                ts := (numRecord p st).point.ts, flags := 1 } := by
+      rcases ht with h | h <;> simp [pointToOtlp, h, hv0]
+    refine pointOfRecord_of_shows _ rid sid m p _ hsh hq ?_ ?_ ?_ ?_ ?_ ?_
+    · simpa [numRecord] using ha
+    · simp [numRecord]
+    · simp [numRecord]
+    · simp [hfl.1 hf]
+    · rw [nrv_value _ _ rfl]; simp [pointValue, hf]
+    · intro _; simp [hex.2 hf]
+  · have hf' : flagged p = false := by simpa using hf
+    have he : exemplarsToOtlp (numRecord p st).point.exemplars = .ok ((numRecord p st).point.exemplars.map exemplarBack) := by
+      simpa [numRecord] using hx.1
+    rcases hval with h1 | h2
+    · have hv0 : (numRecord p st).point.value = .int p.v := by
+        simp only [numRecord, pointWithEx_value, hnv, hf, h1, if_true]; simp
       have hq : pointToOtlp m.type (numRecord p st).metric (numRecord p st).attrs (numRecord p st).point
           = .ok { attrs := (numRecord p st).attrs.toOtlp, start := (numRecord p st).point.start,
-                  ts := (numRecord p st).point.ts, flags := 1 } := by
-        rcases ht with h | h <;> simp [pointToOtlp, h, hv0]
-      refine pointOfRecord_of_shows _ rid sid m p _ ?_ hq ?_ ?_ ?_ ?_ ?_ ?_
-      · exact hs
-      · simpa [numRecord] using ha.1
+                  ts := (numRecord p st).point.ts, vt := 1, v := p.v,
+                  exemplars := (numRecord p st).point.exemplars.map exemplarBack } := by
+        rcases ht with h | h <;> simp [pointToOtlp, h, hv0, he, Except.map]
+      refine pointOfRecord_of_shows _ rid sid m p _ hsh hq ?_ ?_ ?_ ?_ ?_ ?_
+      · simpa [numRecord] using ha
       · simp [numRecord]
       · simp [numRecord]
-      · simp [hfl.1 hf]
-      · have e1 : ∀ (q : Point), q.flags = 1 → pointValue m.type q = .nrv := by
-          intro q hq; simp [pointValue, flagged, hq]
-        rw [e1 _ rfl]
-        simp [pointValue, hf]
-      · intro _; simp [hex.2 hf]
-    · have hf' : flagged p = false := by simpa using hf
-      rcases hval with h1 | h2
-      · have hv0 : (numRecord p st).point.value = .int p.v := by
-          simp only [numRecord, pointWithEx_value, hnv.2, hf, h1, if_true]; simp
-        have hq : pointToOtlp m.type (numRecord p st).metric (numRecord p st).attrs (numRecord p st).point
-            = .ok { attrs := (numRecord p st).attrs.toOtlp, start := (numRecord p st).point.start,
-                    ts := (numRecord p st).point.ts, vt := 1, v := p.v,
-                    exemplars := (numRecord p st).point.exemplars.map exemplarBack } := by
-          have he : exemplarsToOtlp (numRecord p st).point.exemplars = .ok ((numRecord p st).point.exemplars.map exemplarBack) := by
-            simpa [numRecord] using hx.2.2.2.2.2.1
-          rcases ht with h | h <;> simp [pointToOtlp, h, hv0, he, Except.map]
-        refine pointOfRecord_of_shows _ rid sid m p _ ?_ hq ?_ ?_ ?_ ?_ ?_ ?_
-        · exact hs
-        · simpa [numRecord] using ha.1
-        · simp [numRecord]
-        · simp [numRecord]
-        · simp [hfl.2 hf']
-        · have e2 : pointValue m.type p = .int p.v := by
-            rcases ht with h | h <;> simp [pointValue, hf', h, h1]
-          rw [e2]
-          rcases ht with h | h <;> simp [pointValue, flagged, h]
-        · intro _; simpa [numRecord] using hx.2.2.2.2.2.2
-      · have hv0 : (numRecord p st).point.value = .dbl p.v := by
-          simp only [numRecord, pointWithEx_value, hnv.2, hf, h2]; simp
-        have hq : pointToOtlp m.type (numRecord p st).metric (numRecord p st).attrs (numRecord p st).point
-            = .ok { attrs := (numRecord p st).attrs.toOtlp, start := (numRecord p st).point.start,
-                    ts := (numRecord p st).point.ts, vt := 2, v := p.v,
-                    exemplars := (numRecord p st).point.exemplars.map exemplarBack } := by
-          have he : exemplarsToOtlp (numRecord p st).point.exemplars = .ok ((numRecord p st).point.exemplars.map exemplarBack) := by
-            simpa [numRecord] using hx.2.2.2.2.2.1
-          rcases ht with h | h <;> simp [pointToOtlp, h, hv0, he, Except.map]
-        refine pointOfRecord_of_shows _ rid sid m p _ ?_ hq ?_ ?_ ?_ ?_ ?_ ?_
-        · exact hs
-        · simpa [numRecord] using ha.1
-        · simp [numRecord]
-        · simp [numRecord]
-        · simp [hfl.2 hf']
-        · have e2 : pointValue m.type p = .dbl p.v := by
-            rcases ht with h | h <;> simp [pointValue, hf', h, h2]
-          rw [e2]
-          rcases ht with h | h <;> simp [pointValue, flagged, h]
-        · intro _; simpa [numRecord] using hx.2.2.2.2.2.2
-  · simp only [WState.inv, SRecord.nnz, Bool.and_eq_true, decide_eq_true_eq]
-    exact ⟨⟨⟨⟨⟨⟨⟨hmd, hbd⟩, htmp⟩, hra⟩, hsa⟩, ha.2⟩, hx.2.1⟩, hx.1⟩
-  · exact hs
-
-end Stef.Otlp
-
-namespace Stef.Otlp
-
-/-- data points of the points of metric `m`, as they come back -/
-def backPoints (rid : ResId) (sid : ScopeId) (m : Metric) (ps : List Point) : List (Except String DataPoint) :=
-  ps.map fun p => .ok (dataPoint rid sid m p).sortExAttrs
+      · simp [hfl.2 hf']
+      · have e2 : pointValue m.type p = .int p.v := by
+          rcases ht with h | h <;> simp [pointValue, hf', h, h1]
+        rw [e2]
+        rcases ht with h | h <;> simp [pointValue, flagged, h]
+      · intro _; simpa [numRecord] using hx.2
+    · have hv0 : (numRecord p st).point.value = .dbl p.v := by
+        simp only [numRecord, pointWithEx_value, hnv, hf, h2]; simp
+      have hq : pointToOtlp m.type (numRecord p st).metric (numRecord p st).attrs (numRecord p st).point
+          = .ok { attrs := (numRecord p st).attrs.toOtlp, start := (numRecord p st).point.start,
+                  ts := (numRecord p st).point.ts, vt := 2, v := p.v,
+                  exemplars := (numRecord p st).point.exemplars.map exemplarBack } := by
+        rcases ht with h | h <;> simp [pointToOtlp, h, hv0, he, Except.map]
+      refine pointOfRecord_of_shows _ rid sid m p _ hsh hq ?_ ?_ ?_ ?_ ?_ ?_
+      · simpa [numRecord] using ha
+      · simp [numRecord]
+      · simp [numRecord]
+      · simp [hfl.2 hf']
+      · have e2 : pointValue m.type p = .dbl p.v := by
+          rcases ht with h | h <;> simp [pointValue, hf', h, h2]
+        rw [e2]
+        rcases ht with h | h <;> simp [pointValue, flagged, h]
+      · intro _; simpa [numRecord] using hx.2
 
 theorem cleanNum_vt {p : Point} (h : p.cleanNum = true) : p.vt ≤ 2 ∧ ∀ e ∈ p.exemplars, e.vt ≤ 2 := by
   simp only [Point.cleanNum, Bool.and_eq_true, Bool.or_eq_true, beq_iff_eq] at h
-  exact ⟨by rcases h.1.2 with h | h <;> omega, clean_vt (exs_of_exOk h.1.1.2).1⟩
+  exact ⟨by rcases h.2 with h | h <;> omega, clean_vt (exs_of_exOk h.1.2).1⟩
 
 theorem writeNumeric_spec (rid : ResId) (sid : ScopeId) (m : Metric) (ht : m.type = .gauge ∨ m.type = .sum) :
-    ∀ (ps : List Point) (st : WState), (∀ p ∈ ps, p.cleanNum = true) → st.inv = true → Shows st.cur rid sid m →
-    ∃ st', writeNumeric ps st = .ok st' ∧ st'.inv = true ∧ Shows st'.cur rid sid m ∧
+    ∀ (ps : List Point) (st : WState), (∀ p ∈ ps, p.cleanNum = true) → st.inv → Shows st.cur rid sid m →
+    ∃ st', writeNumeric ps st = .ok st' ∧ st'.inv ∧ Shows st'.cur rid sid m ∧
       st'.out.map pointOfRecord = (backPoints rid sid m ps).reverse ++ st.out.map pointOfRecord
   | [], st, _, hi, hs => ⟨st, rfl, hi, hs, by simp [backPoints]⟩
   | p :: ps, st, hc, hi, hs => by
     have hp := hc p (by simp)
     have hv := cleanNum_vt hp
-    have h1 := numRecord_spec p st rid sid m ht hp hi hs
+    have h1 := numRecord_spec p st rid sid m ht hp hs
     obtain ⟨st', h2, h3, h4, h5⟩ := writeNumeric_spec rid sid m ht ps
       ({ st with cur := numRecord p st, tmp := numTmp p st }).write (fun q hq => hc q (by simp [hq]))
-      (by simpa [WState.write, WState.inv] using h1.2.1) (by simpa [WState.write] using h1.2.2)
+      (by simpa [WState.write, WState.inv, numRecord] using hi) (show Shows (numRecord p st) rid sid m from hs)
     refine ⟨st', ?_, h3, h4, ?_⟩
     · rw [writeNumeric_cons p ps st hv.1 hv.2]; exact h2
     · rw [h5]
-      simp [WState.write, backPoints, h1.1]
+      simp [WState.write, backPoints, h1]
 
-end Stef.Otlp
+/-! ### option helpers -/
 
-namespace Stef.Otlp
-
-/-! ### float helpers on options, slices and quantiles -/
-
-theorem setOptF_eq (old new : Option Nat) (ho : optNnzO old = true) (hn : optNnzO new = true) : setOptF old new = new := by
+theorem setOptF_eq (old new : Option Nat) : setOptF old new = new := by
   cases new with
   | none => cases old <;> rfl
-  | some v =>
-    cases old with
-    | none => rfl
-    | some o =>
-      simp only [optNnzO] at ho hn
-      simp [setOptF, setF_eq (nnzF_iff.mp ho) (nnzF_iff.mp hn)]
-
-theorem optNnzO_optOf (has : Bool) (v : Nat) (h : optNnz has v = true) : optNnzO (optOf has v) = true := by
-  cases has <;> simp_all [optNnz, optOf, optNnzO]
+  | some v => cases old <;> simp [setOptF, setF_eq]
 
 theorem optOf_isSome_getD (x : Option Nat) : optOf x.isSome (x.getD 0) = x := by
   cases x <;> rfl
 
-theorem fSliceEq_eq : ∀ (a b : List Nat), a.all boundOk = true → b.all boundOk = true → fSliceEq a b = true → a = b
-  | [], [], _, _, _ => rfl
-  | [], _ :: _, _, _, h => by simp [fSliceEq] at h
-  | _ :: _, [], _, _, h => by simp [fSliceEq] at h
-  | x :: a, y :: b, ha, hb, h => by
-    simp only [List.all_cons, Bool.and_eq_true] at ha hb
-    simp only [fSliceEq, Bool.and_eq_true] at h
-    rw [fEq_eq_of_nnz (boundOk_iff.mp ha.1) (boundOk_iff.mp hb.1) h.1, fSliceEq_eq a b ha.2 hb.2 h.2]
-
-theorem setFSlice_eq (old new : List Nat) (ho : old.all boundOk = true) (hn : new.all boundOk = true) : setFSlice old new = new := by
-  unfold setFSlice
-  by_cases h : fSliceEq old new = true
-  · simp [h, fSliceEq_eq old new ho hn h]
-  · simp [h]
-
-def quantilesNnz (q : List (Nat × Nat)) : Bool := q.all (fun q => nnzF q.1 && nnzF q.2)
-
-theorem nnzF_zero : nnzF 0 = true := by decide
-
-theorem setQuantiles_eq : ∀ (new old : List (Nat × Nat)), quantilesNnz new = true → quantilesNnz old = true →
-    setQuantiles new old = new
-  | [], _, _, _ => rfl
-  | (q, v) :: t, [], hn, _ => by
-    simp only [quantilesNnz, List.all_cons, Bool.and_eq_true] at hn
-    have := setQuantiles_eq t [] (by simpa [quantilesNnz] using hn.2) (by simp [quantilesNnz])
-    simp [setQuantiles, this, setF_eq (nnzF_iff.mp nnzF_zero) (nnzF_iff.mp hn.1.1),
-      setF_eq (nnzF_iff.mp nnzF_zero) (nnzF_iff.mp hn.1.2)]
-  | (q, v) :: t, (oq, ov) :: ot, hn, ho => by
-    simp only [quantilesNnz, List.all_cons, Bool.and_eq_true] at hn ho
-    have := setQuantiles_eq t ot (by simpa [quantilesNnz] using hn.2) (by simpa [quantilesNnz] using ho.2)
-    simp [setQuantiles, this, setF_eq (nnzF_iff.mp ho.1.1) (nnzF_iff.mp hn.1.1),
-      setF_eq (nnzF_iff.mp ho.1.2) (nnzF_iff.mp hn.1.2)]
+theorem setQuantiles_eq : ∀ (new old : List (Nat × Nat)), setQuantiles new old = new
+  | [], _ => rfl
+  | (q, v) :: t, [] => by simp [setQuantiles, setQuantiles_eq t [], setF_eq]
+  | (q, v) :: t, (oq, ov) :: ot => by simp [setQuantiles, setQuantiles_eq t ot, setF_eq]
 
 theorem trunc_sext (x : Nat) (h : int32ok x = true) : trunc32 (sext32 x) = x := by
   simp only [int32ok, decide_eq_true_eq] at h
@@ -502,6 +353,11 @@ theorem trunc_sext (x : Nat) (h : int32ok x = true) : trunc32 (sext32 x) = x := 
   split <;> omega
 
 /-! ### histogram points -/
+
+/-- the histogram value an unflagged point is stored as -/
+def histOf (p : Point) : SHist :=
+  { count := p.count, sum := optOf p.hasSum p.sum, min := optOf p.hasMin p.min, max := optOf p.hasMax p.max,
+    buckets := p.buckets }
 
 def histValueInto (p : Point) (old : SPValue) : SPValue :=
   if flagged p then .none else
@@ -522,6 +378,19 @@ theorem convHistogram_eq (p : Point) (pt : SPoint) (hl : flagged p = true ∨ p.
       · exact h
     simp only [hf, hl']
     cases pt.value <;> simp
+
+theorem histValueInto_spec (p : Point) (old : SPValue) :
+    histValueInto p old = (if flagged p then .none else .hist (histOf p)) := by
+  simp only [histValueInto, setOptF_eq, histOf]
+
+/-- the point an unflagged histogram point is read back as -/
+def histBack (p : Point) (rec : SRecord) : Point :=
+  { attrs := rec.attrs.toOtlp, start := rec.point.start, ts := rec.point.ts, count := p.count, buckets := p.buckets,
+    bounds := rec.metric.bounds,
+    hasSum := (optOf p.hasSum p.sum).isSome, sum := (optOf p.hasSum p.sum).getD 0,
+    hasMin := (optOf p.hasMin p.min).isSome, min := (optOf p.hasMin p.min).getD 0,
+    hasMax := (optOf p.hasMax p.max).isSome, max := (optOf p.hasMax p.max).getD 0,
+    exemplars := rec.point.exemplars.map exemplarBack }
 
 def histRecord (p : Point) (st : WState) : SRecord :=
   { st.cur with
@@ -544,128 +413,75 @@ theorem shows_bounds {rec : SRecord} {rid : ResId} {sid : ScopeId} {m : Metric} 
   obtain ⟨h1, h2, h, hm, hid, ht⟩ := hs
   exact ⟨h1, h2, h, by simpa [metricToOtlp] using hm, hid, ht⟩
 
-end Stef.Otlp
-
-namespace Stef.Otlp
-
-/-- the histogram value a clean, unflagged point is stored as -/
-def histOf (p : Point) : SHist :=
-  { count := p.count, sum := optOf p.hasSum p.sum, min := optOf p.hasMin p.min, max := optOf p.hasMax p.max,
-    buckets := p.buckets }
-
-/-- ... and the point it is read back as -/
-def histBack (p : Point) (rec : SRecord) : Point :=
-  { attrs := rec.attrs.toOtlp, start := rec.point.start, ts := rec.point.ts, count := p.count, buckets := p.buckets,
-    bounds := rec.metric.bounds,
-    hasSum := (optOf p.hasSum p.sum).isSome, sum := (optOf p.hasSum p.sum).getD 0,
-    hasMin := (optOf p.hasMin p.min).isSome, min := (optOf p.hasMin p.min).getD 0,
-    hasMax := (optOf p.hasMax p.max).isSome, max := (optOf p.hasMax p.max).getD 0,
-    exemplars := rec.point.exemplars.map exemplarBack }
-
 theorem histRecord_spec (p : Point) (st : WState) (rid : ResId) (sid : ScopeId) (m : Metric) (ht : m.type = .hist)
-    (hc : p.cleanHist = true) (hi : st.inv = true) (hs : Shows st.cur rid sid m) :
-    pointOfRecord (histRecord p st) = .ok (dataPoint rid sid m p).sortExAttrs ∧
-    ({ st with cur := histRecord p st, tmp := histTmp p st } : WState).inv = true ∧ Shows (histRecord p st) rid sid m := by
+    (hc : p.cleanHist = true) (hs : Shows st.cur rid sid m) :
+    pointOfRecord (histRecord p st) = .ok (dataPoint rid sid m p).sortExAttrs ∧ Shows (histRecord p st) rid sid m := by
   simp only [Point.cleanHist, Bool.and_eq_true] at hc
-  obtain ⟨⟨⟨⟨⟨⟨hbase, hexok⟩, _hlen⟩, hsum⟩, hmin⟩, hmax⟩, hbnd⟩ := hc
+  obtain ⟨⟨hbase, hexok⟩, _hlen⟩ := hc
   have hex := exs_of_exOk hexok
   have hat := attrs_of_base hbase
-  simp only [WState.inv, SRecord.nnz, Bool.and_eq_true, decide_eq_true_eq] at hi
-  obtain ⟨⟨⟨⟨⟨⟨⟨hmd, hbd⟩, htmp⟩, hra⟩, hsa⟩, haa⟩, hpt⟩, htn⟩ := hi
-  have hpt' := hpt
-  simp only [SPoint.nnz, Bool.and_eq_true] at hpt'
-  -- the optional fields of the re-used histogram value hold no -0.0
-  have hold : optNnzO (match st.cur.point.value with | .hist h => h.sum | _ => none) = true ∧
-      optNnzO (match st.cur.point.value with | .hist h => h.min | _ => none) = true ∧
-      optNnzO (match st.cur.point.value with | .hist h => h.max | _ => none) = true := by
-    cases hov : st.cur.point.value with
-    | hist h =>
-      have := hpt'.1
-      simp only [hov, SPValue.nnz, Bool.and_eq_true] at this
-      exact ⟨this.1.1, this.1.2, this.2⟩
-    | _ => simp [optNnzO]
-  have hnv : (histValueInto p st.cur.point.value).nnz = true ∧
-      histValueInto p st.cur.point.value = (if flagged p then .none else .hist (histOf p)) := by
-    simp only [histValueInto]
-    by_cases hf : flagged p = true
-    · simp [hf, SPValue.nnz]
-    · simp only [hf]
-      rw [setOptF_eq _ _ hold.1 (optNnzO_optOf _ _ hsum), setOptF_eq _ _ hold.2.1 (optNnzO_optOf _ _ hmin),
-        setOptF_eq _ _ hold.2.2 (optNnzO_optOf _ _ hmax)]
-      simp [SPValue.nnz, histOf, optNnzO_optOf _ _ hsum, optNnzO_optOf _ _ hmin, optNnzO_optOf _ _ hmax]
+  have hnv := histValueInto_spec p st.cur.point.value
   let pt1 : SPoint := { st.cur.point with ts := p.ts, start := p.start, value := histValueInto p st.cur.point.value }
-  have hpt1 : pt1.nnz = true := by simp [SPoint.nnz, pt1, hnv.1, hpt'.2]
-  have hx := pointWithEx_spec p.exemplars st.tmp pt1 hex.1 htn hpt1
-  have ha := attrs_roundtrip p.attrs st.cur.attrs hat.1 haa
+  have hx := pointWithEx_spec p.exemplars st.tmp pt1 hex.1
+  have ha := attrs_roundtrip p.attrs st.cur.attrs hat.1
   have hfl := flags_of_clean hat.2
-  have hb := setFSlice_eq st.cur.metric.bounds p.bounds hbd hbnd
+  have hb := setFSlice_eq st.cur.metric.bounds p.bounds
   have hsh : Shows (histRecord p st) rid sid m := shows_bounds hs _ _ _
-  refine ⟨?_, ?_, hsh⟩
-  · by_cases hf : flagged p = true
-    · have hv0 : (histRecord p st).point.value = .none := by
-        simp only [histRecord, pointWithEx_value, hnv.2, hf, if_true]
-      have hq : pointToOtlp m.type (histRecord p st).metric (histRecord p st).attrs (histRecord p st).point
-          = .ok { attrs := (histRecord p st).attrs.toOtlp, start := (histRecord p st).point.start,
-                  ts := (histRecord p st).point.ts, flags := 1 } := by
-        simp [pointToOtlp, ht, hv0]
-      refine pointOfRecord_of_shows _ rid sid m p _ hsh hq ?_ ?_ ?_ ?_ ?_ ?_
-      · simpa [histRecord] using ha.1
-      · simp [histRecord]
-      · simp [histRecord]
-      · simp [hfl.1 hf]
-      · have e1 : ∀ (q : Point), q.flags = 1 → pointValue m.type q = .nrv := by
-          intro q hq; simp [pointValue, flagged, hq]
-        rw [e1 _ rfl]
-        simp [pointValue, hf]
-      · intro _; simp [hex.2 hf]
-    · have hf' : flagged p = false := by simpa using hf
-      have hv0 : (histRecord p st).point.value = .hist (histOf p) := by
-        simp only [histRecord, pointWithEx_value, hnv.2, hf]; simp
-      have he : exemplarsToOtlp (histRecord p st).point.exemplars = .ok ((histRecord p st).point.exemplars.map exemplarBack) := by
-        simpa [histRecord] using hx.2.2.2.2.2.1
-      have hq : pointToOtlp m.type (histRecord p st).metric (histRecord p st).attrs (histRecord p st).point
-          = .ok (histBack p (histRecord p st)) := by
-        simp [pointToOtlp, ht, hv0, he, Except.map, histBack, histOf]
-      refine pointOfRecord_of_shows _ rid sid m p _ hsh hq ?_ ?_ ?_ ?_ ?_ ?_
-      · simpa [histRecord, histBack] using ha.1
-      · simp [histRecord, histBack]
-      · simp [histRecord, histBack]
-      · simp [hfl.2 hf', histBack]
-      · have e2 : pointValue m.type p = .hist p.count (optOf p.hasSum p.sum) (optOf p.hasMin p.min) (optOf p.hasMax p.max)
-            p.buckets p.bounds := by simp [pointValue, hf', ht]
-        rw [e2]
-        simp [pointValue, flagged, ht, optOf_isSome_getD, histRecord, histBack, hb]
-      · intro _; simpa [histRecord, histBack] using hx.2.2.2.2.2.2
-  · simp only [WState.inv, SRecord.nnz, Bool.and_eq_true, decide_eq_true_eq]
-    refine ⟨⟨⟨⟨⟨⟨⟨hmd, ?_⟩, htmp⟩, hra⟩, hsa⟩, ha.2⟩, hx.2.1⟩, hx.1⟩
-    simp only [histRecord]
-    rw [hb]; exact hbnd
+  refine ⟨?_, hsh⟩
+  by_cases hf : flagged p = true
+  · have hv0 : (histRecord p st).point.value = .none := by
+      simp only [histRecord, pointWithEx_value, hnv, hf, if_true]
+    have hq : pointToOtlp m.type (histRecord p st).metric (histRecord p st).attrs (histRecord p st).point
+        = .ok { attrs := (histRecord p st).attrs.toOtlp, start := (histRecord p st).point.start,
+                ts := (histRecord p st).point.ts, flags := 1 } := by
+      simp [pointToOtlp, ht, hv0]
+    refine pointOfRecord_of_shows _ rid sid m p _ hsh hq ?_ ?_ ?_ ?_ ?_ ?_
+    · simpa [histRecord] using ha
+    · simp [histRecord]
+    · simp [histRecord]
+    · simp [hfl.1 hf]
+    · rw [nrv_value _ _ rfl]; simp [pointValue, hf]
+    · intro _; simp [hex.2 hf]
+  · have hf' : flagged p = false := by simpa using hf
+    have hv0 : (histRecord p st).point.value = .hist (histOf p) := by
+      simp only [histRecord, pointWithEx_value, hnv, hf]; simp
+    have he : exemplarsToOtlp (histRecord p st).point.exemplars = .ok ((histRecord p st).point.exemplars.map exemplarBack) := by
+      simpa [histRecord] using hx.1
+    have hq : pointToOtlp m.type (histRecord p st).metric (histRecord p st).attrs (histRecord p st).point
+        = .ok (histBack p (histRecord p st)) := by
+      simp [pointToOtlp, ht, hv0, he, Except.map, histBack, histOf]
+    refine pointOfRecord_of_shows _ rid sid m p _ hsh hq ?_ ?_ ?_ ?_ ?_ ?_
+    · simpa [histRecord, histBack] using ha
+    · simp [histRecord, histBack]
+    · simp [histRecord, histBack]
+    · simp [hfl.2 hf', histBack]
+    · have e2 : pointValue m.type p = .hist p.count (optOf p.hasSum p.sum) (optOf p.hasMin p.min) (optOf p.hasMax p.max)
+          p.buckets p.bounds := by simp [pointValue, hf', ht]
+      rw [e2]
+      simp [pointValue, flagged, ht, optOf_isSome_getD, histRecord, histBack, hb]
+    · intro _; simpa [histRecord, histBack] using hx.2
 
 theorem cleanHist_ok {p : Point} (h : p.cleanHist = true) :
     (flagged p = true ∨ p.buckets.length = p.bounds.length + 1) ∧ ∀ e ∈ p.exemplars, e.vt ≤ 2 := by
   simp only [Point.cleanHist, Bool.and_eq_true, Bool.or_eq_true, beq_iff_eq] at h
-  exact ⟨h.1.1.1.1.2, clean_vt (exs_of_exOk h.1.1.1.1.1.2).1⟩
+  exact ⟨h.2, clean_vt (exs_of_exOk h.1.2).1⟩
 
 theorem writeHistogram_spec (rid : ResId) (sid : ScopeId) (m : Metric) (ht : m.type = .hist) :
-    ∀ (ps : List Point) (st : WState), (∀ p ∈ ps, p.cleanHist = true) → st.inv = true → Shows st.cur rid sid m →
-    ∃ st', writeHistogram ps st = .ok st' ∧ st'.inv = true ∧ Shows st'.cur rid sid m ∧
+    ∀ (ps : List Point) (st : WState), (∀ p ∈ ps, p.cleanHist = true) → st.inv → Shows st.cur rid sid m →
+    ∃ st', writeHistogram ps st = .ok st' ∧ st'.inv ∧ Shows st'.cur rid sid m ∧
       st'.out.map pointOfRecord = (backPoints rid sid m ps).reverse ++ st.out.map pointOfRecord
   | [], st, _, hi, hs => ⟨st, rfl, hi, hs, by simp [backPoints]⟩
   | p :: ps, st, hc, hi, hs => by
     have hp := hc p (by simp)
     have hv := cleanHist_ok hp
-    have h1 := histRecord_spec p st rid sid m ht hp hi hs
+    have h1 := histRecord_spec p st rid sid m ht hp hs
     obtain ⟨st', h2, h3, h4, h5⟩ := writeHistogram_spec rid sid m ht ps
       ({ st with cur := histRecord p st, tmp := histTmp p st }).write (fun q hq => hc q (by simp [hq]))
-      (by simpa [WState.write, WState.inv] using h1.2.1) (by simpa [WState.write] using h1.2.2)
+      (by simpa [WState.write, WState.inv, histRecord] using hi) (by simpa [WState.write] using h1.2)
     refine ⟨st', ?_, h3, h4, ?_⟩
     · rw [writeHistogram_cons p ps st hv.1 hv.2]; exact h2
     · rw [h5]
       simp [WState.write, backPoints, h1.1]
-
-end Stef.Otlp
-
-namespace Stef.Otlp
 
 /-! ### exponential histogram points -/
 
@@ -692,11 +508,14 @@ theorem convExpHistogram_eq (p : Point) (pt : SPoint) :
   · simp only [hf]
     rfl
 
-/-- the value a clean, unflagged point is stored as -/
+/-- the value an unflagged point is stored as -/
 def expOf (p : Point) : SExp :=
   { count := p.count, sum := optOf p.hasSum p.sum, min := optOf p.hasMin p.min, max := optOf p.hasMax p.max,
     scale := sext32 p.scale, zeroCount := p.zeroCount, zeroThreshold := p.zeroThreshold,
     pos := { offset := sext32 p.posOff, counts := p.pos }, neg := { offset := sext32 p.negOff, counts := p.neg } }
+
+theorem expInto_eq (p : Point) (e : SExp) : expInto p e = expOf p := by
+  simp only [expInto, expOf, setOptF_eq, setF_eq]
 
 def expBack (p : Point) (rec : SRecord) : Point :=
   { attrs := rec.attrs.toOtlp, start := rec.point.start, ts := rec.point.ts, count := p.count,
@@ -721,100 +540,72 @@ theorem writeExpHistogram_cons (p : Point) (ps : List Point) (st : WState) (h2 :
   simp only [writeExpHistogram, convExpHistogram_eq p st.cur.point, convExemplars_eq p.exemplars st.tmp _ h2, expRecord, expTmp]
 
 theorem expRecord_spec (p : Point) (st : WState) (rid : ResId) (sid : ScopeId) (m : Metric) (ht : m.type = .exp)
-    (hc : p.cleanExp = true) (hi : st.inv = true) (hs : Shows st.cur rid sid m) :
-    pointOfRecord (expRecord p st) = .ok (dataPoint rid sid m p).sortExAttrs ∧
-    ({ st with cur := expRecord p st, tmp := expTmp p st } : WState).inv = true ∧ Shows (expRecord p st) rid sid m := by
+    (hc : p.cleanExp = true) (hs : Shows st.cur rid sid m) :
+    pointOfRecord (expRecord p st) = .ok (dataPoint rid sid m p).sortExAttrs := by
   simp only [Point.cleanExp, Bool.and_eq_true] at hc
-  obtain ⟨⟨⟨⟨⟨⟨⟨⟨hbase, hexok⟩, hsum⟩, hmin⟩, hmax⟩, hzt⟩, hsc⟩, hpo⟩, hno⟩ := hc
+  obtain ⟨⟨⟨⟨hbase, hexok⟩, hsc⟩, hpo⟩, hno⟩ := hc
   have hex := exs_of_exOk hexok
   have hat := attrs_of_base hbase
-  simp only [WState.inv, SRecord.nnz, Bool.and_eq_true, decide_eq_true_eq] at hi
-  obtain ⟨⟨⟨⟨⟨⟨⟨hmd, hbd⟩, htmp⟩, hra⟩, hsa⟩, haa⟩, hpt⟩, htn⟩ := hi
-  have hpt' := hpt
-  simp only [SPoint.nnz, Bool.and_eq_true] at hpt'
-  have hold : optNnzO (expOld st.cur.point.value).sum = true ∧ optNnzO (expOld st.cur.point.value).min = true ∧
-      optNnzO (expOld st.cur.point.value).max = true ∧ nnzF (expOld st.cur.point.value).zeroThreshold = true := by
-    cases hov : st.cur.point.value with
-    | exp e =>
-      have := hpt'.1
-      simp only [hov, SPValue.nnz, Bool.and_eq_true] at this
-      exact ⟨this.1.1.1, this.1.1.2, this.1.2, this.2⟩
-    | _ => simp [expOld, optNnzO, nnzF_zero]
-  have hinto : expInto p (expOld st.cur.point.value) = expOf p := by
-    simp only [expInto, expOf]
-    rw [setOptF_eq _ _ hold.1 (optNnzO_optOf _ _ hsum), setOptF_eq _ _ hold.2.1 (optNnzO_optOf _ _ hmin),
-      setOptF_eq _ _ hold.2.2.1 (optNnzO_optOf _ _ hmax), setF_eq (nnzF_iff.mp hold.2.2.2) (nnzF_iff.mp hzt)]
-  have hnv : (expValueInto p st.cur.point.value).nnz = true ∧
-      expValueInto p st.cur.point.value = (if flagged p then .none else .exp (expOf p)) := by
-    simp only [expValueInto, hinto]
-    by_cases hf : flagged p = true
-    · simp [hf, SPValue.nnz]
-    · simp [hf, SPValue.nnz, expOf, optNnzO_optOf _ _ hsum, optNnzO_optOf _ _ hmin, optNnzO_optOf _ _ hmax, hzt]
+  have hnv : expValueInto p st.cur.point.value = (if flagged p then .none else .exp (expOf p)) := by
+    simp only [expValueInto, expInto_eq]
   let pt1 : SPoint := { st.cur.point with ts := p.ts, start := p.start, value := expValueInto p st.cur.point.value }
-  have hpt1 : pt1.nnz = true := by simp [SPoint.nnz, pt1, hnv.1, hpt'.2]
-  have hx := pointWithEx_spec p.exemplars st.tmp pt1 hex.1 htn hpt1
-  have ha := attrs_roundtrip p.attrs st.cur.attrs hat.1 haa
+  have hx := pointWithEx_spec p.exemplars st.tmp pt1 hex.1
+  have ha := attrs_roundtrip p.attrs st.cur.attrs hat.1
   have hfl := flags_of_clean hat.2
   have hsh : Shows (expRecord p st) rid sid m := hs
-  refine ⟨?_, ?_, hsh⟩
-  · by_cases hf : flagged p = true
-    · have hv0 : (expRecord p st).point.value = .none := by
-        simp only [expRecord, pointWithEx_value, hnv.2, hf, if_true]
-      have hq : pointToOtlp m.type (expRecord p st).metric (expRecord p st).attrs (expRecord p st).point
-          = .ok { attrs := (expRecord p st).attrs.toOtlp, start := (expRecord p st).point.start,
-                  ts := (expRecord p st).point.ts, flags := 1 } := by
-        simp [pointToOtlp, ht, hv0]
-      refine pointOfRecord_of_shows _ rid sid m p _ hsh hq ?_ ?_ ?_ ?_ ?_ ?_
-      · simpa [expRecord] using ha.1
-      · simp [expRecord]
-      · simp [expRecord]
-      · simp [hfl.1 hf]
-      · have e1 : ∀ (q : Point), q.flags = 1 → pointValue m.type q = .nrv := by
-          intro q hq; simp [pointValue, flagged, hq]
-        rw [e1 _ rfl]
-        simp [pointValue, hf]
-      · intro _; simp [hex.2 hf]
-    · have hf' : flagged p = false := by simpa using hf
-      have hv0 : (expRecord p st).point.value = .exp (expOf p) := by
-        simp only [expRecord, pointWithEx_value, hnv.2, hf]; simp
-      have he : exemplarsToOtlp (expRecord p st).point.exemplars = .ok ((expRecord p st).point.exemplars.map exemplarBack) := by
-        simpa [expRecord] using hx.2.2.2.2.2.1
-      have hq : pointToOtlp m.type (expRecord p st).metric (expRecord p st).attrs (expRecord p st).point
-          = .ok (expBack p (expRecord p st)) := by
-        simp [pointToOtlp, ht, hv0, he, Except.map, expBack, expOf]
-      refine pointOfRecord_of_shows _ rid sid m p _ hsh hq ?_ ?_ ?_ ?_ ?_ ?_
-      · simpa [expRecord, expBack] using ha.1
-      · simp [expRecord, expBack]
-      · simp [expRecord, expBack]
-      · simp [hfl.2 hf', expBack]
-      · have e2 : pointValue m.type p = .exp p.count (optOf p.hasSum p.sum) (optOf p.hasMin p.min) (optOf p.hasMax p.max)
-            p.scale p.zeroCount p.zeroThreshold p.posOff p.pos p.negOff p.neg := by simp [pointValue, hf', ht]
-        rw [e2]
-        simp [pointValue, flagged, ht, optOf_isSome_getD, expBack, trunc_sext _ hsc, trunc_sext _ hpo, trunc_sext _ hno]
-      · intro _; simpa [expRecord, expBack] using hx.2.2.2.2.2.2
-  · simp only [WState.inv, SRecord.nnz, Bool.and_eq_true, decide_eq_true_eq]
-    exact ⟨⟨⟨⟨⟨⟨⟨hmd, hbd⟩, htmp⟩, hra⟩, hsa⟩, ha.2⟩, hx.2.1⟩, hx.1⟩
+  by_cases hf : flagged p = true
+  · have hv0 : (expRecord p st).point.value = .none := by
+      simp only [expRecord, pointWithEx_value, hnv, hf, if_true]
+    have hq : pointToOtlp m.type (expRecord p st).metric (expRecord p st).attrs (expRecord p st).point
+        = .ok { attrs := (expRecord p st).attrs.toOtlp, start := (expRecord p st).point.start,
+                ts := (expRecord p st).point.ts, flags := 1 } := by
+      simp [pointToOtlp, ht, hv0]
+    refine pointOfRecord_of_shows _ rid sid m p _ hsh hq ?_ ?_ ?_ ?_ ?_ ?_
+    · simpa [expRecord] using ha
+    · simp [expRecord]
+    · simp [expRecord]
+    · simp [hfl.1 hf]
+    · rw [nrv_value _ _ rfl]; simp [pointValue, hf]
+    · intro _; simp [hex.2 hf]
+  · have hf' : flagged p = false := by simpa using hf
+    have hv0 : (expRecord p st).point.value = .exp (expOf p) := by
+      simp only [expRecord, pointWithEx_value, hnv, hf]; simp
+    have he : exemplarsToOtlp (expRecord p st).point.exemplars = .ok ((expRecord p st).point.exemplars.map exemplarBack) := by
+      simpa [expRecord] using hx.1
+    have hq : pointToOtlp m.type (expRecord p st).metric (expRecord p st).attrs (expRecord p st).point
+        = .ok (expBack p (expRecord p st)) := by
+      simp [pointToOtlp, ht, hv0, he, Except.map, expBack, expOf]
+    refine pointOfRecord_of_shows _ rid sid m p _ hsh hq ?_ ?_ ?_ ?_ ?_ ?_
+    · simpa [expRecord, expBack] using ha
+    · simp [expRecord, expBack]
+    · simp [expRecord, expBack]
+    · simp [hfl.2 hf', expBack]
+    · have e2 : pointValue m.type p = .exp p.count (optOf p.hasSum p.sum) (optOf p.hasMin p.min) (optOf p.hasMax p.max)
+          p.scale p.zeroCount p.zeroThreshold p.posOff p.pos p.negOff p.neg := by simp [pointValue, hf', ht]
+      rw [e2]
+      simp [pointValue, flagged, ht, optOf_isSome_getD, expBack, trunc_sext _ hsc, trunc_sext _ hpo, trunc_sext _ hno]
+    · intro _; simpa [expRecord, expBack] using hx.2
 
 theorem cleanExp_ok {p : Point} (h : p.cleanExp = true) : ∀ e ∈ p.exemplars, e.vt ≤ 2 := by
   simp only [Point.cleanExp, Bool.and_eq_true] at h
-  exact clean_vt (exs_of_exOk h.1.1.1.1.1.1.1.2).1
+  exact clean_vt (exs_of_exOk h.1.1.1.2).1
 
 theorem writeExpHistogram_spec (rid : ResId) (sid : ScopeId) (m : Metric) (ht : m.type = .exp) :
-    ∀ (ps : List Point) (st : WState), (∀ p ∈ ps, p.cleanExp = true) → st.inv = true → Shows st.cur rid sid m →
-    ∃ st', writeExpHistogram ps st = .ok st' ∧ st'.inv = true ∧ Shows st'.cur rid sid m ∧
+    ∀ (ps : List Point) (st : WState), (∀ p ∈ ps, p.cleanExp = true) → st.inv → Shows st.cur rid sid m →
+    ∃ st', writeExpHistogram ps st = .ok st' ∧ st'.inv ∧ Shows st'.cur rid sid m ∧
       st'.out.map pointOfRecord = (backPoints rid sid m ps).reverse ++ st.out.map pointOfRecord
   | [], st, _, hi, hs => ⟨st, rfl, hi, hs, by simp [backPoints]⟩
   | p :: ps, st, hc, hi, hs => by
     have hp := hc p (by simp)
     have hv := cleanExp_ok hp
-    have h1 := expRecord_spec p st rid sid m ht hp hi hs
+    have h1 := expRecord_spec p st rid sid m ht hp hs
     obtain ⟨st', h2, h3, h4, h5⟩ := writeExpHistogram_spec rid sid m ht ps
       ({ st with cur := expRecord p st, tmp := expTmp p st }).write (fun q hq => hc q (by simp [hq]))
-      (by simpa [WState.write, WState.inv] using h1.2.1) (by simpa [WState.write] using h1.2.2)
+      (by simpa [WState.write, WState.inv, expRecord] using hi) (show Shows (expRecord p st) rid sid m from hs)
     refine ⟨st', ?_, h3, h4, ?_⟩
     · rw [writeExpHistogram_cons p ps st hv]; exact h2
     · rw [h5]
-      simp [WState.write, backPoints, h1.1]
+      simp [WState.write, backPoints, h1]
 
 /-! ### summary points -/
 
@@ -840,75 +631,49 @@ theorem writeSummary_cons (p : Point) (ps : List Point) (st : WState) :
   simp only [writeSummary, summaryRecord]
 
 theorem summaryRecord_spec (p : Point) (st : WState) (rid : ResId) (sid : ScopeId) (m : Metric) (ht : m.type = .summary)
-    (hc : p.cleanSummary = true) (hi : st.inv = true) (hs : Shows st.cur rid sid m) :
-    pointOfRecord (summaryRecord p st) = .ok (dataPoint rid sid m p).sortExAttrs ∧
-    ({ st with cur := summaryRecord p st } : WState).inv = true ∧ Shows (summaryRecord p st) rid sid m := by
+    (hc : p.cleanSummary = true) (hs : Shows st.cur rid sid m) :
+    pointOfRecord (summaryRecord p st) = .ok (dataPoint rid sid m p).sortExAttrs := by
   simp only [Point.cleanSummary, Bool.and_eq_true, beq_iff_eq] at hc
-  obtain ⟨⟨⟨hbase, hfl0⟩, hsum⟩, hq⟩ := hc
+  obtain ⟨hbase, hfl0⟩ := hc
   have hat := attrs_of_base hbase
-  simp only [WState.inv, SRecord.nnz, Bool.and_eq_true, decide_eq_true_eq] at hi
-  obtain ⟨⟨⟨⟨⟨⟨⟨hmd, hbd⟩, htmp⟩, hra⟩, hsa⟩, haa⟩, hpt⟩, htn⟩ := hi
-  have hpt' := hpt
-  simp only [SPoint.nnz, Bool.and_eq_true] at hpt'
-  have hold : nnzF (summaryOld st.cur.point.value).sum = true ∧ quantilesNnz (summaryOld st.cur.point.value).quantiles = true := by
-    cases hov : st.cur.point.value with
-    | summary s =>
-      have := hpt'.1
-      simp only [hov, SPValue.nnz, Bool.and_eq_true] at this
-      exact ⟨this.1, this.2⟩
-    | _ => simp [summaryOld, nnzF_zero, quantilesNnz]
   have hval : (convSummary p st.cur.point).value = .summary { count := p.count, sum := p.sum, quantiles := p.quantiles } := by
     rw [convSummary_eq]
-    simp only [summaryInto]
-    rw [setF_eq (nnzF_iff.mp hold.1) (nnzF_iff.mp hsum), setQuantiles_eq _ _ hq hold.2]
-  have ha := attrs_roundtrip p.attrs st.cur.attrs hat.1 haa
+    simp only [summaryInto, setF_eq, setQuantiles_eq]
+  have ha := attrs_roundtrip p.attrs st.cur.attrs hat.1
   have hsh : Shows (summaryRecord p st) rid sid m := hs
-  refine ⟨?_, ?_, hsh⟩
-  · have hqq : pointToOtlp m.type (summaryRecord p st).metric (summaryRecord p st).attrs (summaryRecord p st).point
-        = .ok (summaryBack p (summaryRecord p st)) := by
-      simp [pointToOtlp, ht, summaryRecord, hval, summaryBack]
-    refine pointOfRecord_of_shows _ rid sid m p _ hsh hqq ?_ ?_ ?_ ?_ ?_ ?_
-    · simpa [summaryRecord, summaryBack] using ha.1
-    · simp [summaryRecord, summaryBack, convSummary]
-    · simp [summaryRecord, summaryBack, convSummary]
-    · simp [summaryBack, hfl0]
-    · have e1 : pointValue m.type p = .summary p.count p.sum p.quantiles := by
-        simp [pointValue, ht, flagged, hfl0]
-      rw [e1]
-      simp [pointValue, ht, flagged, summaryBack]
-    · intro h; exact absurd ht h
-  · simp only [WState.inv, SRecord.nnz, Bool.and_eq_true, decide_eq_true_eq]
-    refine ⟨⟨⟨⟨⟨⟨⟨hmd, hbd⟩, htmp⟩, hra⟩, hsa⟩, ha.2⟩, ?_⟩, htn⟩
-    simp only [summaryRecord, SPoint.nnz, Bool.and_eq_true]
-    refine ⟨?_, ?_⟩
-    · rw [hval]; simp only [SPValue.nnz, hsum, Bool.true_and]; exact hq
-    · simpa [convSummary] using hpt'.2
+  have hqq : pointToOtlp m.type (summaryRecord p st).metric (summaryRecord p st).attrs (summaryRecord p st).point
+      = .ok (summaryBack p (summaryRecord p st)) := by
+    simp [pointToOtlp, ht, summaryRecord, hval, summaryBack]
+  refine pointOfRecord_of_shows _ rid sid m p _ hsh hqq ?_ ?_ ?_ ?_ ?_ ?_
+  · simpa [summaryRecord, summaryBack] using ha
+  · simp [summaryRecord, summaryBack, convSummary]
+  · simp [summaryRecord, summaryBack, convSummary]
+  · simp [summaryBack, hfl0]
+  · have e1 : pointValue m.type p = .summary p.count p.sum p.quantiles := by
+      simp [pointValue, ht, flagged, hfl0]
+    rw [e1]
+    simp [pointValue, ht, flagged, summaryBack]
+  · intro h; exact absurd ht h
 
 theorem writeSummary_spec (rid : ResId) (sid : ScopeId) (m : Metric) (ht : m.type = .summary) :
-    ∀ (ps : List Point) (st : WState), (∀ p ∈ ps, p.cleanSummary = true) → st.inv = true → Shows st.cur rid sid m →
-    ∃ st', writeSummary ps st = .ok st' ∧ st'.inv = true ∧ Shows st'.cur rid sid m ∧
+    ∀ (ps : List Point) (st : WState), (∀ p ∈ ps, p.cleanSummary = true) → st.inv → Shows st.cur rid sid m →
+    ∃ st', writeSummary ps st = .ok st' ∧ st'.inv ∧ Shows st'.cur rid sid m ∧
       st'.out.map pointOfRecord = (backPoints rid sid m ps).reverse ++ st.out.map pointOfRecord
   | [], st, _, hi, hs => ⟨st, rfl, hi, hs, by simp [backPoints]⟩
   | p :: ps, st, hc, hi, hs => by
     have hp := hc p (by simp)
-    have h1 := summaryRecord_spec p st rid sid m ht hp hi hs
+    have h1 := summaryRecord_spec p st rid sid m ht hp hs
     obtain ⟨st', h2, h3, h4, h5⟩ := writeSummary_spec rid sid m ht ps
       ({ st with cur := summaryRecord p st }).write (fun q hq => hc q (by simp [hq]))
-      (by simpa [WState.write, WState.inv] using h1.2.1) (by simpa [WState.write] using h1.2.2)
+      (by simpa [WState.write, WState.inv, summaryRecord] using hi) (show Shows (summaryRecord p st) rid sid m from hs)
     refine ⟨st', ?_, h3, h4, ?_⟩
     · rw [writeSummary_cons p ps st]; exact h2
     · rw [h5]
-      simp [WState.write, backPoints, h1.1]
-
-end Stef.Otlp
-
-namespace Stef.Otlp
+      simp [WState.write, backPoints, h1]
 
 /-! ### metrics, scopes, resources -/
 
 def ShowsRS (rec : SRecord) (rid : ResId) (sid : ScopeId) : Prop := rec.resource.id = rid ∧ rec.scope.id = sid
-
-theorem ofNat_toNat (t : MType) : MType.ofNat? t.toNat = some t := by cases t <;> rfl
 
 theorem tempOk_le {t : Nat} (h : tempOk t = true) : t ≤ 2 := by simpa [tempOk] using h
 
@@ -931,51 +696,46 @@ theorem convMetricUnsorted_eq (m : Metric) (dst : SMetric) (h : tempOk m.temp = 
 
 /-- the metric part of the record after metric2metric, for a clean metric -/
 theorem convMetric_spec (m : Metric) (st : WState) (rid : ResId) (sid : ScopeId) (hc : m.clean = true)
-    (hi : st.inv = true) (hs : ShowsRS st.cur rid sid) :
-    ({ st with cur := { st.cur with metric := metricInto m st.cur.metric } } : WState).inv = true ∧
+    (hi : st.inv) (hs : ShowsRS st.cur rid sid) :
+    ({ st with cur := { st.cur with metric := metricInto m st.cur.metric } } : WState).inv ∧
       Shows { st.cur with metric := metricInto m st.cur.metric } rid sid m := by
   simp only [Metric.clean, Bool.and_eq_true] at hc
   obtain ⟨⟨hmdc, htok⟩, _⟩ := hc
-  simp only [WState.inv, SRecord.nnz, Bool.and_eq_true, decide_eq_true_eq] at hi
-  obtain ⟨⟨⟨⟨⟨⟨⟨hmd, hbd⟩, htmp⟩, hra⟩, hsa⟩, haa⟩, hpt⟩, htn⟩ := hi
-  have ha := attrs_roundtrip m.mdata st.cur.metric.mdata hmdc hmd
+  have htmp : st.cur.metric.temp ≤ 2 := hi
+  have ha := attrs_roundtrip m.mdata st.cur.metric.mdata hmdc
   have ht2 := tempOk_le htok
   have hagg : ∀ t, t ≤ 2 → aggTempToOtlp t = .ok t := by intro t h; simp [aggTempToOtlp, h]
   cases hmt : m.type with
   | gauge =>
     refine ⟨?_, hs.1, hs.2, ?_⟩
-    · simp [WState.inv, SRecord.nnz, metricInto, metricBase, hmt, ha.2, hbd, htmp, hra, hsa, haa, hpt, htn]
+    · simpa [WState.inv, metricInto, metricBase, hmt] using htmp
     · refine ⟨_, by simp [metricToOtlp, metricInto, metricBase, hmt, MType.toNat, MType.ofNat?, hagg _ htmp]; rfl, ?_, ?_⟩
-      · simp [metricId, hmt, ha.1]
+      · simp [metricId, hmt, ha]
       · simp [hmt]
   | summary =>
     refine ⟨?_, hs.1, hs.2, ?_⟩
-    · simp [WState.inv, SRecord.nnz, metricInto, metricBase, hmt, ha.2, hbd, htmp, hra, hsa, haa, hpt, htn]
+    · simpa [WState.inv, metricInto, metricBase, hmt] using htmp
     · refine ⟨_, by simp [metricToOtlp, metricInto, metricBase, hmt, MType.toNat, MType.ofNat?, hagg _ htmp]; rfl, ?_, ?_⟩
-      · simp [metricId, hmt, ha.1]
+      · simp [metricId, hmt, ha]
       · simp [hmt]
   | sum =>
     refine ⟨?_, hs.1, hs.2, ?_⟩
-    · simp [WState.inv, SRecord.nnz, metricInto, metricBase, hmt, ha.2, hbd, ht2, hra, hsa, haa, hpt, htn]
+    · simpa [WState.inv, metricInto, metricBase, hmt] using ht2
     · refine ⟨_, by simp [metricToOtlp, metricInto, metricBase, hmt, MType.toNat, MType.ofNat?, hagg _ ht2]; rfl, ?_, ?_⟩
-      · simp [metricId, hmt, ha.1]
+      · simp [metricId, hmt, ha]
       · simp [hmt]
   | hist =>
     refine ⟨?_, hs.1, hs.2, ?_⟩
-    · simp [WState.inv, SRecord.nnz, metricInto, metricBase, hmt, ha.2, hbd, ht2, hra, hsa, haa, hpt, htn]
+    · simpa [WState.inv, metricInto, metricBase, hmt] using ht2
     · refine ⟨_, by simp [metricToOtlp, metricInto, metricBase, hmt, MType.toNat, MType.ofNat?, hagg _ ht2]; rfl, ?_, ?_⟩
-      · simp [metricId, hmt, ha.1]
+      · simp [metricId, hmt, ha]
       · simp [hmt]
   | exp =>
     refine ⟨?_, hs.1, hs.2, ?_⟩
-    · simp [WState.inv, SRecord.nnz, metricInto, metricBase, hmt, ha.2, hbd, ht2, hra, hsa, haa, hpt, htn]
+    · simpa [WState.inv, metricInto, metricBase, hmt] using ht2
     · refine ⟨_, by simp [metricToOtlp, metricInto, metricBase, hmt, MType.toNat, MType.ofNat?, hagg _ ht2]; rfl, ?_, ?_⟩
-      · simp [metricId, hmt, ha.1]
+      · simp [metricId, hmt, ha]
       · simp [hmt]
-
-end Stef.Otlp
-
-namespace Stef.Otlp
 
 theorem shows_rs {rec : SRecord} {rid : ResId} {sid : ScopeId} {m : Metric} (h : Shows rec rid sid m) : ShowsRS rec rid sid :=
   ⟨h.1, h.2.1⟩
@@ -985,8 +745,8 @@ theorem clean_points {m : Metric} (hc : m.clean = true) : ∀ p ∈ m.points, Po
   exact List.all_eq_true.mp hc.2
 
 theorem writeMetric_spec (m : Metric) (st : WState) (rid : ResId) (sid : ScopeId) (hc : m.clean = true)
-    (hi : st.inv = true) (hs : ShowsRS st.cur rid sid) :
-    ∃ st', writeMetric m st = .ok st' ∧ st'.inv = true ∧ ShowsRS st'.cur rid sid ∧
+    (hi : st.inv) (hs : ShowsRS st.cur rid sid) :
+    ∃ st', writeMetric m st = .ok st' ∧ st'.inv ∧ ShowsRS st'.cur rid sid ∧
       st'.out.map pointOfRecord = (backPoints rid sid m m.points).reverse ++ st.out.map pointOfRecord := by
   have htok : tempOk m.temp = true := by
     simp only [Metric.clean, Bool.and_eq_true] at hc; exact hc.1.2
@@ -1022,8 +782,8 @@ theorem backPoints_eq (rid : ResId) (sid : ScopeId) (m : Metric) : backPoints ri
   simp [backPoints, okBack, flattenMetric]
 
 theorem writeMetrics_spec (rid : ResId) (sid : ScopeId) : ∀ (ms : List Metric) (st : WState),
-    (∀ m ∈ ms, m.clean = true) → st.inv = true → ShowsRS st.cur rid sid →
-    ∃ st', writeMetrics ms st = .ok st' ∧ st'.inv = true ∧ ShowsRS st'.cur rid sid ∧
+    (∀ m ∈ ms, m.clean = true) → st.inv → ShowsRS st.cur rid sid →
+    ∃ st', writeMetrics ms st = .ok st' ∧ st'.inv ∧ ShowsRS st'.cur rid sid ∧
       st'.out.map pointOfRecord = (okBack (ms.map (flattenMetric rid sid)).flatten).reverse ++ st.out.map pointOfRecord
   | [], st, _, hi, hs => ⟨st, rfl, hi, hs, by simp [okBack]⟩
   | m :: ms, st, hc, hi, hs => by
@@ -1034,22 +794,19 @@ theorem writeMetrics_spec (rid : ResId) (sid : ScopeId) : ∀ (ms : List Metric)
     simp [okBack, List.map_append, List.reverse_append]
 
 theorem writeScopes_spec (rid : ResId) : ∀ (ss : List ScopeMetrics) (st : WState),
-    (∀ s ∈ ss, s.clean = true) → st.inv = true → st.cur.resource.id = rid →
-    ∃ st', writeScopes ss st = .ok st' ∧ st'.inv = true ∧ st'.cur.resource.id = rid ∧
+    (∀ s ∈ ss, s.clean = true) → st.inv → st.cur.resource.id = rid →
+    ∃ st', writeScopes ss st = .ok st' ∧ st'.inv ∧ st'.cur.resource.id = rid ∧
       st'.out.map pointOfRecord = (okBack (ss.map (flattenScope rid)).flatten).reverse ++ st.out.map pointOfRecord
   | [], st, _, hi, hs => ⟨st, rfl, hi, hs, by simp [okBack]⟩
   | s :: ss, st, hc, hi, hs => by
     have hsc := hc s (by simp)
     simp only [ScopeMetrics.clean, Bool.and_eq_true] at hsc
-    simp only [WState.inv, SRecord.nnz, Bool.and_eq_true, decide_eq_true_eq] at hi
-    obtain ⟨⟨⟨⟨⟨⟨⟨hmd, hbd⟩, htmp⟩, hra⟩, hsa⟩, haa⟩, hpt⟩, htn⟩ := hi
-    have ha := attrs_roundtrip s.attrs st.cur.scope.attrs hsc.1 hsa
+    have ha := attrs_roundtrip s.attrs st.cur.scope.attrs hsc.1
     let st0 : WState := { st with cur := { st.cur with scope := convScopeUnsorted s st.cur.scope } }
-    have hi0 : st0.inv = true := by
-      simp [st0, WState.inv, SRecord.nnz, convScopeUnsorted, ha.2, hmd, hbd, htmp, hra, haa, hpt, htn]
+    have hi0 : st0.inv := hi
     have hs0 : ShowsRS st0.cur rid (scopeId s) := by
       refine ⟨hs, ?_⟩
-      simp [st0, SScope.id, scopeId, convScopeUnsorted, ha.1]
+      simp [st0, SScope.id, scopeId, convScopeUnsorted, ha]
     obtain ⟨st1, h1, h2, h3, h4⟩ := writeMetrics_spec rid (scopeId s) s.metrics st0 (List.all_eq_true.mp hsc.2) hi0 hs0
     obtain ⟨st2, k1, k2, k3, k4⟩ := writeScopes_spec rid ss st1 (fun x hx => hc x (by simp [hx])) h2 h3.1
     refine ⟨st2, ?_, k2, k3, ?_⟩
@@ -1060,21 +817,18 @@ theorem writeScopes_spec (rid : ResId) : ∀ (ss : List ScopeMetrics) (st : WSta
       simp [okBack, flattenScope, List.map_append, List.reverse_append, st0]
 
 theorem writeResources_spec : ∀ (rs : List ResourceMetrics) (st : WState),
-    (∀ r ∈ rs, r.clean = true) → st.inv = true →
-    ∃ st', writeResources rs st = .ok st' ∧ st'.inv = true ∧
+    (∀ r ∈ rs, r.clean = true) → st.inv →
+    ∃ st', writeResources rs st = .ok st' ∧ st'.inv ∧
       st'.out.map pointOfRecord = (okBack (rs.map flattenResource).flatten).reverse ++ st.out.map pointOfRecord
   | [], st, _, hi => ⟨st, rfl, hi, by simp [okBack]⟩
   | r :: rs, st, hc, hi => by
     have hrc := hc r (by simp)
     simp only [ResourceMetrics.clean, Bool.and_eq_true] at hrc
-    simp only [WState.inv, SRecord.nnz, Bool.and_eq_true, decide_eq_true_eq] at hi
-    obtain ⟨⟨⟨⟨⟨⟨⟨hmd, hbd⟩, htmp⟩, hra⟩, hsa⟩, haa⟩, hpt⟩, htn⟩ := hi
-    have ha := attrs_roundtrip r.attrs st.cur.resource.attrs hrc.1 hra
+    have ha := attrs_roundtrip r.attrs st.cur.resource.attrs hrc.1
     let st0 : WState := { st with cur := { st.cur with resource := convResourceUnsorted r st.cur.resource } }
-    have hi0 : st0.inv = true := by
-      simp [st0, WState.inv, SRecord.nnz, convResourceUnsorted, ha.2, hmd, hbd, htmp, hsa, haa, hpt, htn]
+    have hi0 : st0.inv := hi
     have hs0 : st0.cur.resource.id = resId r := by
-      simp [st0, SResource.id, resId, convResourceUnsorted, ha.1]
+      simp [st0, SResource.id, resId, convResourceUnsorted, ha]
     obtain ⟨st1, h1, h2, _, h4⟩ := writeScopes_spec (resId r) r.scopes st0 (List.all_eq_true.mp hrc.2) hi0 hs0
     obtain ⟨st2, k1, k2, k4⟩ := writeResources_spec rs st1 (fun x hx => hc x (by simp [hx])) h2
     refine ⟨st2, ?_, k2, ?_⟩
@@ -1084,8 +838,7 @@ theorem writeResources_spec : ∀ (rs : List ResourceMetrics) (st : WState),
     · rw [k4, h4]
       simp [okBack, flattenResource, List.map_append, List.reverse_append, st0]
 
-theorem init_inv : ({} : WState).inv = true := by
-  simp [WState.inv, SRecord.nnz, SAttrs.nnz, SKVs.nnz, SPoint.nnz, SPValue.nnz]
+theorem init_inv : ({} : WState).inv := by simp [WState.inv]
 
 /-- the unsorted writer on a clean batch: it succeeds and every record reads back as its data point -/
 theorem otlpToStefUnsorted_spec (m : Metrics) (hc : m.clean = true) :
